@@ -37,6 +37,7 @@ K6     == { <<"chain", 6>>, <<"accs", 6>>, <<"dense", 6>>, <<"mixed", 6>> }
 K8     == { <<"dense", 8>>, <<"mixed", 8>> }
 K1     == { <<"accs", 1>>, <<"none", 1>> }
 KR2    == { <<"dense", 3>>, <<"mixed", 4>>, <<"none", 1>> }   \* graphs dumped for the replay (R2)
+KSim   == { <<"dense", 8>>, <<"mixed", 8>>, <<"dense", 6>>, <<"mixed", 10>>, <<"chain", 12>> }   \* behaviours by simulation (R2, thorough)
 KTiny  == K3 \cup K1 \cup D4
 KSmall == K4 \cup K1 \cup { <<"mixed", 5>> }
 KMany  == K6 \cup K8 \cup KSmall \cup { <<"none", 3>>, <<"dense", 7>> }
